@@ -432,6 +432,117 @@ def _site_program(site, nesting, owner_kind):
     return [cls, asg("oo", ("new", "Own", [])), ("print", ("method", V("oo"), "run", [I(1)])), ("print", ("str", "end"))]
 
 
+# captured variables of OTHER DECLARED TYPES than the int of the matrix above, written by `modify` with a value whose own type is compatible with, but not
+# identical to, the declaration (a plain int into `int?`, an int into an alias of int, a fresh object into `Cbox?`, another function value into a
+# function-typed variable, a string into `str?`): kind -> (raw lines before, declared type, initial value of p -> expr, written value, reader statements, reader expr,
+# owner's later assignment)
+def _rd_obj():
+    return [asg("tq", ("or", V("cv"), ("new", "Cbox", [I(0)])))], ("field", V("tq"), "v")
+
+
+TYPED_KINDS = {
+    "int-typed": (None, "int", lambda p: p, ("bin", "+", V("cv"), I(5)), [], V("cv"), I(2)),
+    "opt-int-nil": (None, "int?", lambda p: ("nil",), I(5), [], ("or", V("cv"), I(77)), I(2)),
+    "opt-int-present": (None, "int?", lambda p: p, ("bin", "+", ("or", V("cv"), I(70)), I(1)), [], ("or", V("cv"), I(77)), I(2)),
+    "opt-str-nil": (None, "str?", lambda p: ("nil",), ("bin", "+", ("str", "ab"), I(3)), [], ("method", ("or", V("cv"), ("str", "")), "len", []), ("str", "zzzz")),
+    "opt-obj-nil": (None, "Cbox?", lambda p: ("nil",), ("new", "Cbox", [I(3)]), _rd_obj()[0], _rd_obj()[1], ("new", "Cbox", [I(8)])),
+    "alias-int": ("type Tq int", "Tq", lambda p: p, ("bin", "+", V("cv"), I(5)), [], ("bin", "+", V("cv"), I(0)), I(2)),
+    "fn-typed": (None, "fn() -> int", lambda p: fn([], "int", [("return", I(1))]), fn([], "int", [("return", I(6))]), [], call("cv"), fn([], "int", [("return", I(9))])),
+    "list-typed": (None, "[int...]", lambda p: ("list", [p]), ("method", V("cv"), "clone", []), [], ("method", V("cv"), "len", []), ("method", ("method", V("cv"), "clone", []), "clone", [])),
+}
+TYPED_SITES = {
+    "t-modify": lambda W, rs, R: [asg("cv", W, None, ("modify",))] + rs + [("return", R)],
+    "t-modify-in-if": lambda W, rs, R: [("if", ("bool", True), [asg("cv", W, None, ("modify",))], None)] + rs + [("return", R)],
+    "t-modify-in-loop": lambda W, rs, R: [("from", I(0), I(2), False, None, None, [asg("cv", W, None, ("modify",))])] + rs + [("return", R)],
+    "t-read-only": lambda W, rs, R: rs + [("return", R)],
+    "t-inner-modify": lambda W, rs, R: [asg("inner", fn([], "int", [asg("cv", W, None, ("modify",))] + rs + [("return", R)])), ("return", call("inner"))],
+    "t-modify-only": lambda W, rs, R: [asg("cv", W, None, ("modify",)), ("return", I(0))],
+}
+
+
+def typed_program(kind, site, nesting, owner_kind):
+    raw, ty, init, W, rs, R, OW = TYPED_KINDS[kind]
+    clo = fn([], "int", TYPED_SITES[site](W, rs, R))
+    if nesting == 1:
+        make = [asg("cl", clo)]
+    elif nesting == 2:
+        make = [asg("mk", fn([], FN0, [("return", clo)])), asg("cl", call("mk"))]
+    else:
+        make = [asg("mk", fn([], f"fn() -> {FN0}", [("return", fn([], FN0, [("return", clo)]))])), asg("mk2", call("mk")), asg("cl", call("mk2"))]
+
+    def show():
+        return rs + [("print", R)]
+    use = [("print", call("cl"))] + show() + [asg("cv", OW)] + ([("expr", ("method", V("cv"), "push", [I(9)]))] if kind == "list-typed" else []) + [("print", call("cl"))] + show() + [("print", ("method", V("cl"), "is_closure", []))]
+    head = ([("raw", raw)] if raw else []) + ([_CBOX] if "Cbox" in repr((ty, W, R, OW)) else [])
+    if owner_kind == "module":
+        return head + [asg("cv", init(I(1)), ty)] + make + use + [("print", ("str", "end"))]
+    if owner_kind == "escaped":
+        owner = fn([("p", "int")], FN0, [asg("cv", init(V("p")), ty)] + make + [("return", V("cl"))])
+        return head + [asg("own", owner), asg("e1", call("own", I(1))), ("print", call("e1")), ("print", call("e1")), asg("e2", call("own", I(4))),
+                       ("print", call("e2")), ("print", call("e1")), ("print", ("method", V("e1"), "is_closure", [])), ("print", ("str", "end"))]
+    owner = fn([("p", "int")], "int", [asg("cv", init(V("p")), ty)] + make + use + [("return", I(0))])
+    if owner_kind == "function":
+        return head + [asg("own", owner), ("print", call("own", I(1))), ("print", call("own", I(0))), ("print", ("str", "end"))]
+    cls = ("class", "Own", [], ([], []), [("run", [("p", "int")], "int", owner[3])])
+    return head + [cls, asg("oo", ("new", "Own", [])), ("print", ("method", V("oo"), "run", [I(1)])), ("print", ("str", "end"))]
+
+
+# `modify cv = <a read out of a container>`: the captured variable receives the VALUE; a later write to the slot it was read from (inside the closure, or by
+# the owner after the call) must not show through cv, and a later write to cv must not reach the slot
+SNAP_SRC = {
+    "elem": (("index", V("lc"), I(0)), [("setindex", V("lc"), I(0), I(99))]),
+    "elem-var-index": (("index", V("lc"), V("kq2")), [("setindex", V("lc"), I(0), I(99))]),     # kq2: a local of the closure (an index that is itself captured is refused by the compiler)
+    "elem-opassign": (("index", V("lc"), I(0)), [("opassign", ("index", V("lc"), I(0)), "+=", I(50))]),
+    "elem-reverse": (("index", V("lc"), I(0)), [("expr", ("method", V("lc"), "reverse", []))]),
+    "field": (("field", V("co"), "v"), [("setfield", V("co"), "v", I(99))]),
+    "field-opassign": (("field", V("co"), "v"), [("opassign", ("field", V("co"), "v"), "*=", I(3))]),
+    "fn-returning-elem": (call("ge"), [("setindex", V("lc"), I(0), I(99))]),
+    "map-entry": (("get", ("index", V("mq"), ("str", "k"))), [("setindex", V("mq"), ("str", "k"), I(99))]),
+    "nested-elem": (("index", ("index", V("nq"), I(0)), I(0)), [asg("iq", ("index", V("nq"), I(0))), ("setindex", V("iq"), I(0), I(99))]),      # not `(nq[0])[0] = 99`: a line must not start with `(`
+}
+SNAP_WHERE = ["in-closure", "owner-after-call", "owner-writes-cv-then-reads-slot"]
+
+
+def snap_program(src, where, nesting, owner_kind):
+    S, SET = SNAP_SRC[src]
+    slot = S if S[0] != "call" and src != "elem-var-index" else ("index", V("lc"), I(0))
+    body = ([asg("kq2", I(0))] if src == "elem-var-index" else []) + [asg("cv", S, None, ("modify",))] + (SET if where == "in-closure" else []) + [("return", V("cv"))]
+    clo = fn([], "int", body)
+    if nesting == 1:
+        make = [asg("cl", clo)]
+    elif nesting == 2:
+        make = [asg("mk", fn([], FN0, [("return", clo)])), asg("cl", call("mk"))]
+    else:
+        make = [asg("mk", fn([], f"fn() -> {FN0}", [("return", fn([], FN0, [("return", clo)]))])), asg("mk2", call("mk")), asg("cl", call("mk2"))]
+    rd = asg("rd", fn([], "int", [("return", V("cv"))]))
+
+    def env(p):
+        return [asg("cv", p), asg("kq", I(0)), asg("lc", ("list", [("bin", "+", p, I(10)), I(7)]), "[int...]"), asg("co", ("new", "Cbox", [("bin", "+", p, I(20))])),
+                asg("mq", ("maplit", "str", "int", [(("str", "k"), ("bin", "+", p, I(30)))])),
+                asg("nq", ("list", [("list", [("bin", "+", p, I(40))])]), "[[int...]...]"),
+                asg("ge", fn([], "int", [("return", ("index", V("lc"), I(0)))]))]
+    use = [("print", call("cl"))]
+    if where == "owner-after-call":
+        use += SET
+    if where == "owner-writes-cv-then-reads-slot":
+        use += [asg("cv", I(55))]
+    use += [("print", V("cv")), ("print", call("rd")), ("print", slot if slot[0] != "get" else ("or", slot[1], I(0))), ("print", call("cl")), ("print", V("cv"))]
+    if owner_kind == "module":
+        return [_CBOX] + env(I(1)) + make + [rd] + use + [("print", ("str", "end"))]
+    owner = fn([("p", "int")], "int", env(V("p")) + make + [rd] + use + [("return", V("cv"))])
+    if owner_kind == "function":
+        return [_CBOX, asg("own", owner), ("print", call("own", I(1))), ("print", call("own", I(0))), ("print", ("str", "end"))]
+    if owner_kind == "escaped":
+        # closure and reader are handed out; the slot is written through a third closure after the owner has returned
+        setter = asg("st", fn([], "int", SET + [("return", I(0))]))
+        owner = fn([("p", "int")], "[fn() -> int...]", env(V("p")) + make + [rd, setter, asg("fs", ("list", [V("cl"), V("rd"), V("st")]), "[fn() -> int...]"), ("return", V("fs"))])
+        seq = [asg("fs1", call("own", I(1))), asg("c1", ("index", V("fs1"), I(0))), asg("r1", ("index", V("fs1"), I(1))), asg("s1", ("index", V("fs1"), I(2))),
+               ("print", call("c1")), ("print", call("r1"))] + ([("print", call("s1"))] if where != "in-closure" else []) + [("print", call("r1")), ("print", call("c1")), ("print", call("r1"))]
+        return [_CBOX, asg("own", owner)] + seq + [("print", ("str", "end"))]
+    cls = ("class", "Own", [], ([], []), [("run", [("p", "int")], "int", owner[3])])
+    return [_CBOX, cls, asg("oo", ("new", "Own", [])), ("print", ("method", V("oo"), "run", [I(1)])), ("print", ("str", "end"))]
+
+
 _CBOX = ("class", "Cbox", [("v", "int")], ([("v", "int")], [("setfield", V("self"), "v", V("v"))]), [])
 
 
@@ -459,6 +570,10 @@ class C07(EHistCheck):
             "the closure returns an inner closure (reading / modifying the name, created in a block, two levels deep) that is called only after "
             "its creator has returned, from two executions of the creator, interleaved; a fourth family of closures that call themselves with self(..) and read / modify "
             "what they captured, call themselves again or create an inner closure after the recursive call has returned; "
+            "a fifth family in which the captured variable has one of 8 DECLARED TYPES (int, int? nil / present, str?, Cbox?, an alias of int, a function type, [int...]) and is written by "
+            "`modify` - directly, in a block, in a loop, from an inner closure, without any read - with a value whose own type is compatible with but not identical to the declaration; "
+            "a sixth family in which `modify` stores a value READ OUT OF A CONTAINER (list element - constant / variable index -, object field, map entry, nested list element, a function returning an element) and the slot it came from is then written "
+            "(in the closure, by the owner after the call, through a third closure after the owner has returned) or the variable is: neither write may show through the other; "
             "is_closure() is observed in every case.  Every template is also explored (one level shallower) with prelude, history and observers executed "
             "inside one function body, so that all variables are locals of a running function.")
     assumptions = ["the reference interpreter with explicit cells is the model", "functions are never printed"]
@@ -470,7 +585,9 @@ class C07(EHistCheck):
         pre = [("site", f"{p}+{s}", n, o) for p in PREFIXES if p for s in site_bodies() for n in ((1, 2) if tier == "quick" else (1, 2, 3)) for o in own]
         escs = [("site", f"{p}+{s}" if p else s, n, o) for p in PREFIXES for s in ESC_SITES for n in (1, 2, 3) for o in own]
         recs = [("site", s, n, o) for s in REC_SITES for n in (1, 2, 3) for o in own]
-        return [("capture-site-matrix", sites), ("capture-site-matrix-after-shadow/self-assign/modify", pre),
+        typed = [("site", f"{k}@{t}", n, o) for k in TYPED_KINDS for t in TYPED_SITES for n in (1, 2, 3) for o in own]
+        snaps = [("site", f"snap:{k}:{w}", n, o) for k in SNAP_SRC for w in SNAP_WHERE for n in (1, 2, 3) for o in own]
+        return [("capture-site-matrix", sites), ("modify-with-a-value-read-out-of-a-container-then-the-slot-or-the-variable-is-written", snaps), ("captured-variable-of-8-declared-types-written-by-modify-with-a-compatible-value", typed), ("capture-site-matrix-after-shadow/self-assign/modify", pre),
                 ("inner-closure-escapes-its-creator", escs), ("recursive-closures-using-captures-after-the-recursive-call", recs)] + ls
 
     def describe(self, case):
@@ -482,7 +599,12 @@ class C07(EHistCheck):
         if case[0] != "site":
             return EHistCheck.run_case(self, case)
         _, site, nesting, owner = case
-        ast = site_program(site, nesting, owner)
+        if site.startswith("snap:"):
+            ast = snap_program(*site.split(":")[1:], nesting, owner)
+        elif "@" in site:
+            ast = typed_program(*site.split("@"), nesting, owner)
+        else:
+            ast = site_program(site, nesting, owner)
         src = refint.program(ast)
         it = refint.Interp()
         ok, failure = it.run(ast)
